@@ -22,6 +22,12 @@ def main():
     ap.add_argument("--quiet", action="store_true")
     a = ap.parse_args()
     faulthandler.enable()
+    import warnings
+
+    import numpy as np
+
+    warnings.filterwarnings("ignore")
+    np.seterr(all="ignore")
     logging.getLogger("asyncio").setLevel(logging.CRITICAL)
     from checks import common
 
